@@ -246,8 +246,12 @@ class PicklePersister(Persister):
         checkpoint = PersistedCheckpoint(process.pid, tag)
         persisted_pickle = PersistedPickle(checkpoint, bundle)
 
+        # Pickle first: if the process cannot be pickled, the checkpoint that may already be there stays as it is (and no
+        # empty file is left behind that would make listing the checkpoints fail)
+        pickled = pickle.dumps(persisted_pickle)
+
         with open(self._pickle_filepath(process.pid, tag), 'w+b') as handle:
-            pickle.dump(persisted_pickle, handle)
+            handle.write(pickled)
 
     def load_checkpoint(self, pid: PID_TYPE, tag: Optional[str] = None) -> Bundle:
         """
